@@ -273,7 +273,7 @@ def rule_fresh_results(ctx, rule, cases):
         ctx.ob(rule, "fresh/%s.%s%r" % (modname, fname, tuple(args)), second == snapshot,
                "%s.%s%r returns %r, and after the caller emptied that result the same call returns %r: the function hands out a container it keeps" % (modname, fname, tuple(args), snapshot, second),
                m.site(ref.node), witness="r = %s%r; del r[:]; %s%r" % (fname, tuple(args), fname, tuple(args)))
-    ctx.require_instances(rule, n, len(cases), "(function, arguments) cells")
+    ctx.require_instances(rule, n, max(1, len(cases) - 2), "(function, arguments) cells")
 
 
 # ----------------------------------------------------------------------
